@@ -14,7 +14,7 @@ proofs need about them (`0 ≤ threshold`, `threshold + 1/4 ≤ limit`, `4 ≤ d
 `dmax`), underlying calls and idle periods take no negative time, `time.sleep` oversleeps by at most `eps`.
 
 Full statement vs. what holds:
-* `window_bound` is the property's bound for **one thread, or any number of threads whose underlying calls take no
+* `window_bound_partial` (and `window_bound_at_underlying_partial`) is the property's bound for **one thread, or any number of threads whose underlying calls take no
   time** (`_partial` in the sense of DESIGN §6: the extra hypothesis is spelled out as `OneThreadOrZeroLatency`).
 * `multi_stream_counterexample` / `no_fixed_burst` prove that without that hypothesis the statement is false of the
   model (and, replayed by the harness, of the code): defect candidate D16.
@@ -88,7 +88,7 @@ theorem window_bound_general (L : Rat) (hL : 0 < L) (eps : Rat) (dmax : Nat) (s 
 /-- **Window bound** (the property's statement; time stamp = the moment the wrapper call returns, i.e. the bytes are
 handed on).  One thread or zero underlying latency: in every window `[a, b]` at most `L · (b − a) + burst` bytes pass,
 `burst = L · (threshold + eps) + dmax`. -/
-theorem window_bound (L : Rat) (hL : 0 < L) (eps : Rat) (dmax : Nat) (t0 : Rat) (evs : List Ev)
+theorem window_bound_partial (L : Rat) (hL : 0 < L) (eps : Rat) (dmax : Nat) (t0 : Rat) (evs : List Ev)
     (hev : ∀ e ∈ evs, EvOk L eps dmax e) (heps : 0 ≤ eps) (hyp : OneThreadOrZeroLatency evs)
     (a b : Rat) (hab : a ≤ b) :
     winBytes (·.tRel) a b (run L (St.init t0) evs).2 ≤ L * (b - a) + burst L eps dmax := by
@@ -121,7 +121,7 @@ theorem window_bound (L : Rat) (hL : 0 < L) (eps : Rat) (dmax : Nat) (t0 : Rat) 
 
 /-- **Window bound, time stamp = the moment the bytes cross the underlying stream** (one thread):
 at most `L · (b − a) + L · (threshold + eps) + 2 · dmax` bytes in every window. -/
-theorem window_bound_at_underlying (L : Rat) (hL : 0 < L) (eps : Rat) (dmax : Nat) (t0 : Rat) (evs : List Ev) (i : Nat)
+theorem window_bound_at_underlying_partial (L : Rat) (hL : 0 < L) (eps : Rat) (dmax : Nat) (t0 : Rat) (evs : List Ev) (i : Nat)
     (hev : ∀ e ∈ evs, EvOk L eps dmax e) (heps : 0 ≤ eps) (h1 : ∀ e ∈ evs, e.stream = i)
     (a b : Rat) (hab : a ≤ b) :
     winBytes (·.tPre) a b (run L (St.init t0) evs).2 ≤ L * (b - a) + burstPre L eps dmax := by
